@@ -49,6 +49,9 @@ def floors(tier):
         "C17.cells-from-parts": 30,
         "C17.drape": 20,
         "default-origin-objects": 10,
+        "curve-edits-after-cached-parts": 15,
+        "readonly-setter-histories": 20,
+        "failed-write-throughs": 50,
     }
 
 
@@ -78,12 +81,12 @@ def gen_cases(tier, seed):
     for rep in range(reps):
         for chunk in range(0, len(triples), 5):
             cases.append({"kind": "octree", "dims": triples[chunk : chunk + 5], "rep": rep})
-    ncache = 60 if tier == "quick" else 900
+    ncache = 144 if tier == "quick" else 1800
     for i in range(ncache):
-        cases.append({"kind": "cache", "cls": ["BlockModel", "Grid2D", "Octree", "DrapeModel"][i % 4], "steps": 4 + (i % 5) if tier == "quick" else 4 + (i % 17)})
-    ncurve = 40 if tier == "quick" else 600
+        cases.append({"kind": "cache", "cls": ["BlockModel", "Grid2D", "Octree", "DrapeModel"][i % 4], "steps": 4 + (i % 5) if tier == "quick" else 4 + (i % 17), "readonly": (i // 4) % 3 == 1})
+    ncurve = 160 if tier == "quick" else 2400
     for i in range(ncurve):
-        cases.append({"kind": "curve", "n": 2 + (i % 9), "mode": ["blocks", "interleaved", "random", "cells"][i % 4]})
+        cases.append({"kind": "curve", "n": 2 + (i % 9) if i % 4 != 3 else 5 + (i % 6), "mode": ["blocks", "interleaved", "random", "cells"][i % 4]})
     ndrape = 20 if tier == "quick" else 200
     for i in range(ndrape):
         cases.append({"kind": "drape", "nprisms": 1 + i % 5})
@@ -442,6 +445,23 @@ def do_cache(case, rec, rng):
 
         make = DrapeModel
 
+    readonly = case.get("readonly") and cls != "DrapeModel"
+    tmpdir = None
+    if readonly:
+        # the same object stored on disk and re-opened read-only: every setter's write-through raises, the
+        # caller catches and carries on -- geometry and centroids must still agree with each other
+        import tempfile
+
+        from geoh5py.workspace import Workspace
+
+        tmpdir = tempfile.mkdtemp(prefix="gvm_")
+        path = tmpdir + "/ro.geoh5"
+        uid = obj.uid
+        ws.save_as(path)
+        ws.close()
+        ws = Workspace(path, mode="r")
+        obj = ws.get_entity(uid)[0]
+        rec.see("readonly-setter-histories")
     _ = obj.centroids  # fill the cache
     for _step in range(case["steps"]):
         a, v = gen()
@@ -452,12 +472,30 @@ def do_cache(case, rec, rng):
             params["layers"], params["prisms"] = v
             seq.append("layers+prisms")
         else:
-            setattr(obj, a, v)
+            try:
+                setattr(obj, a, v)
+            except UserWarning:
+                if not readonly:
+                    raise
+                rec.see("failed-write-throughs")
             params[a] = v
             seq.append(a)
         if rng.random() < 0.6:
             _ = obj.centroids
-    fresh = make.create(ws, **params)
+    if readonly:
+        # expected geometry = what the object's own getters now say
+        from geoh5py.workspace import Workspace as _W
+
+        for key in list(params):
+            cur = getattr(obj, key)
+            if key == "origin":
+                cur = [float(cur["x"]), float(cur["y"]), float(cur["z"])]
+            elif key == "octree_cells":
+                cur = np.array([tuple(c) for c in cur.tolist()], dtype="int32")
+            params[key] = cur
+        fresh = make.create(_W(), **params)
+    else:
+        fresh = make.create(ws, **params)
     got, exp = obj.centroids, fresh.centroids
     same = got is not None and exp is not None and got.shape == exp.shape and np.allclose(got, exp, rtol=0, atol=1e-9 * 1e5)
     last = seq[-1] if seq else ""
@@ -465,13 +503,17 @@ def do_cache(case, rec, rng):
     if not same:
         # localise: which single setter leaves the cache stale?
         bad_attr = ",".join(sorted(set(seq)))
-    rec.check("C17.stale-cache", same, op="setter-history", cls=cls, attr=bad_attr if cls != "DrapeModel" else "layers+prisms", detail=f"setters={seq} got_shape={None if got is None else got.shape} fresh_shape={None if exp is None else exp.shape}")
+    rec.check("C17.stale-cache", same, op="setter-history:failing-writes" if readonly else "setter-history", cls=cls, attr=bad_attr if cls != "DrapeModel" else "layers+prisms", detail=f"setters={seq} got_shape={None if got is None else got.shape} fresh_shape={None if exp is None else exp.shape}")
     n = obj.n_cells
     rec.check("C17.count", got is not None and n is not None and len(got) == int(n), op="after-setters", cls=cls, attr="", detail=f"{None if got is None else len(got)} centroids, n_cells={n}, setters={seq}")
     rec.nontrivial = True
-    rec.shape = ["cache", cls, seq]
-    rec.sample = {"kind": "cache", "cls": cls, "setters": seq}
+    rec.shape = ["cache", cls, seq, bool(readonly)]
+    rec.sample = {"kind": "cache", "cls": cls, "setters": seq, "readonly": bool(readonly)}
     ws.close()
+    if tmpdir:
+        import shutil
+
+        shutil.rmtree(tmpdir, ignore_errors=True)
 
 
 # ------------------------------------------------------------------------------------------
@@ -522,6 +564,43 @@ def do_curve(case, rec, rng):
                 if not ok:
                     break
         rec.check("C17.parts", ok, op="parts-from-cells", cls="Curve", attr="", detail=f"cells={segs} parts={None if parts is None else parts.tolist()} {detail}")
+        # parts are cached now: change the connectivity through the public API and look again
+        if len(segs) >= 3:
+            how = rng.choice(["remove_cells", "remove_vertices", "cells-setter"])
+            if how == "remove_cells":
+                victim = rng.randrange(1, len(segs) - 1)
+                obj.remove_cells([victim])
+                segs2 = [sg for i, sg in enumerate(segs) if i != victim]
+                n2 = n
+            elif how == "remove_vertices":
+                v = rng.choice(sorted({x for sg in segs for x in sg}))
+                obj.remove_vertices([v])
+                remap = {old: new for new, old in enumerate(i for i in range(n) if i != v)}
+                segs2 = [[remap[a], remap[b]] for a, b in segs if a != v and b != v]
+                n2 = n - 1
+            else:
+                extra = [[segs[-1][1], 0]] if segs[-1][1] != 0 else [[0, n - 1]]
+                segs2 = segs + extra
+                obj.cells = np.array(segs2, dtype="uint32")
+                n2 = n
+            parts2 = obj.parts
+            cells2 = obj.cells
+            got_cells = sorted(tuple(int(x) for x in c) for c in cells2.tolist()) if cells2 is not None else None
+            rec.check("C17.cells-after-edit", got_cells == sorted(tuple(x) for x in segs2), op=how, cls="Curve", attr="", detail=f"after {how}: cells {got_cells} expected {sorted(tuple(x) for x in segs2)}")
+            comp2 = components(n2, segs2)
+            used2 = sorted({x for sg in segs2 for x in sg})
+            ok2 = parts2 is not None and len(parts2) == n2
+            det2 = ""
+            if ok2 and how != "cells-setter":
+                for a in used2:
+                    for b in used2:
+                        if (parts2[a] == parts2[b]) != (comp2[a] == comp2[b]):
+                            ok2, det2 = False, f"vertices {a},{b}: labels {int(parts2[a])},{int(parts2[b])} components {comp2[a]},{comp2[b]}"
+                            break
+                    if not ok2:
+                        break
+            rec.check("C17.parts", ok2, op="parts-after-" + how, cls="Curve", attr="", detail=f"cells now {segs2}, parts {None if parts2 is None else parts2.tolist()} {det2}")
+            rec.see("curve-edits-after-cached-parts")
         rec.shape = ["curve", "cells", n, len(cuts)]
         rec.sample = {"kind": "curve", "cells": segs}
     else:
